@@ -31,6 +31,9 @@ pub struct Scope {
     pub cap: bool,
     /// Input alphabet used with this scope.
     pub sigma: Vec<char>,
+    /// Text put around every rendered pattern (derived families such as `^(?:P)`).
+    pub prefix: &'static str,
+    pub suffix: &'static str,
     total: Vec<u64>,
     catroot: Vec<u64>,
     altroot: Vec<u64>,
@@ -52,6 +55,8 @@ impl Scope {
             unary: unary.to_vec(),
             cap,
             sigma: sigma.to_vec(),
+            prefix: "",
+            suffix: "",
             total: vec![0; MAXSIZE + 1],
             catroot: vec![0; MAXSIZE + 1],
             altroot: vec![0; MAXSIZE + 1],
@@ -155,9 +160,17 @@ impl Scope {
     /// Render with the minimal `(?:...)` needed for precedence.
     /// prec: 0 = alternation context, 1 = sequence context, 2 = quantifier operand.
     pub fn render(&self, g: &G) -> String {
-        let mut s = String::new();
+        let mut s = String::from(self.prefix);
         self.render_into(g, 0, &mut s);
+        s.push_str(self.suffix);
         s
+    }
+    pub fn wrapped(mut self, name: &'static str, prefix: &'static str, suffix: &'static str, sigma: &[char]) -> Scope {
+        self.name = name;
+        self.prefix = prefix;
+        self.suffix = suffix;
+        self.sigma = sigma.to_vec();
+        self
     }
 
     fn render_into(&self, g: &G, prec: u8, out: &mut String) {
@@ -232,7 +245,7 @@ pub fn scope(name: &str) -> Scope {
         // classes
         "CL" => Scope::new(
             "CL",
-            &["a", "1", ".", "[ab]", "[^a]", "[a-c]", "\\d", "\\D", "[\\d-[1]]", "[a-c-[b]]"],
+            &["a", "b", "1", ".", "[ab]", "[^a]", "[a-c]", "\\d", "\\D", "[\\d-[1]]", "[a-c-[b]]"],
             &["*", "+", "?", "*?"],
             false,
             &['a', 'b', 'c', '1', '\n'],
@@ -241,6 +254,43 @@ pub fn scope(name: &str) -> Scope {
         "G" => Scope::new("G", &["a", "b", "\\1", "\\2"], &["*", "+", "?", "*?", "{2}"], true, &['a', 'b']),
         // groups without back-references (captures)
         "GC" => Scope::new("GC", &["a", "b", "."], &["*", "+", "?", "*?", "+?", "??", "{2}", "{1,2}"], true, &['a', 'b']),
+        // line-anchored derivation of GC: `^(?:P)` is meant for flag m on multi-line
+        // inputs, so that one scan reports several matches through the start-anchor path
+        "GCM" => scope("GC").wrapped("GCM", "^(?:", ")", &['a', 'b', '\n']),
+        "GCE" => scope("GC").wrapped("GCE", "(?:", ")$", &['a', 'b', '\n']),
+        // quantifiers over alternations with possibly-empty / zero-width / overlapping
+        // branches (composite leaves reach shapes that would need 7-9 kernel nodes)
+        "ALT" => Scope::new(
+            "ALT",
+            &["a", "b", "(?:a|b?)", "(?:a?|b)", "(?:ab|a?)", "(?:a|ab)", "(?:a|)", "(?:|a)", "(?:^|a)", "(?:a|$)", "(a)", "(a|b?)", "(?:ab)"],
+            &Q_KERNEL,
+            false,
+            &['a', 'b'],
+        ),
+        // quantified capturing groups side by side, with a neutral input character so
+        // that attempts fail after a group was set (capture state across attempts)
+        "CAPQ" => Scope::new(
+            "CAPQ",
+            &["(a)", "(b)", "a", "b", "(a|b)", "((a)b)"],
+            &["*", "+", "?", "{2}", "*?"],
+            false,
+            &['a', 'b', 'c'],
+        ),
+        // back-references to groups that are optional, possibly empty, inside a
+        // repetition or in a later alternative (composite leaves)
+        "BR" => Scope::new(
+            "BR",
+            &["a", "b", "\\1", "(a)", "(a?)", "(a*)", "(a|b)", "(?:(a?)b)", "(?:b|(a))", "(?:(a)|b)"],
+            &["*", "+", "?", "*?", "??", "{2}"],
+            false,
+            &['a', 'b'],
+        ),
+        // nesting family behind a non-capturing group (flag x whitespace in `( ?:`)
+        "NESTX" => scope("NEST").wrapped("NESTX", "(?:c*)", "", &['a', 'b', 'c']),
+        // literal prefixes that overlap themselves (prefix-scan shortcut), longer inputs
+        "LP" => Scope::new("LP", &["a", "b", "aa", "ab", "aab", "aba", "abab"], &["*", "?", "+"], false, &['a', 'b']),
+        // group nesting: capturing groups around / beside possibly-empty terms
+        "NEST" => Scope::new("NEST", &["a", "b?", "c*"], &[], true, &['a', 'b', 'c']),
         // case
         "CI" => Scope::new(
             "CI",
